@@ -1501,3 +1501,180 @@ Proof.
   assert (file_path_inv (B "/a/b")) as H by (exists 97, (B "/b"); split; [reflexivity | discriminate]).
   split; [exact H|]. split; [exact H|]. repeat split; vm_compute; reflexivity.
 Qed.
+
+(* 31. WHOLE path_segments_mut sessions on FILE URLs, exactly (Proofs/C06_SegFile.v, witnesses in C06_SegFileEx.v).
+   file_path_ok P: the path text is exactly "/" or starts with '/' followed by a byte other than '/' (every parsed file
+   URL); every operation of a session keeps it.  file_session_ok P ops - computable on the old path text and the
+   arguments alone - asks of every push (also inside extend) made while the path is exactly "/" that the segment is
+   skipped ("." / "..") or root_seg_ok: (a) flush_ok - parse_path flushes its pending text at every TAB / LF / CR of the
+   argument; no character of the argument comes behind a flush that left exactly a drive letter "C:" as the path (it
+   would get a '/' in front) - and (b) the text push writes (seg_text: percent-encoding of the TAB/LF/CR-free argument)
+   is not a letter followed by '|' (it would be rewritten to "C:").  Arguments without TAB / LF / CR meet (a).  Pushes on
+   longer paths and clear / pop / pop_if_empty are unrestricted.  Then the session returns
+   with_path u (session_text STFile ..) - the record of C06_frame_path, as in C06_frame_segments_exact - and the new
+   path text satisfies file_path_ok again.
+   Sessions of push / extend only on a path longer than "/" always meet the condition (C06_file_push_only_ok).
+   The condition is needed (C06_frame_segments_file_root_refuted): file:/// push("C|") gives file:///C: and
+   push("C:<TAB>x") gives file:///C:/x (two segments from one push) where push_text is "/C|" resp. "/C:x";
+   push("C:"), push("c:x"), push("C<TAB>:"), push("C:<TAB>") at the root are covered (appended verbatim). *)
+From RU Require Import Proofs.C06_SegFile Proofs.C06_SegFileEx.
+
+Theorem C06_frame_segments_exact_file : forall dbg u ops u', wf_b u = true ->
+  byte_eqb (ser u) (scheme_end u + 1) 47 = true -> st_of u = STFile ->
+  file_path_ok (path_bytes u) = true -> file_session_ok (path_bytes u) ops = true ->
+  Forall psm_op_usv ops -> path_segments_session dbg u ops = Some (u', SOk) ->
+  path u = Some (path_bytes u) /\ u' = with_path u (session_text STFile (path_bytes u) ops)
+  /\ file_path_ok (session_text STFile (path_bytes u) ops) = true.
+Proof.
+  intros dbg u ops u' W Hsl Hf HP Hok Hu H. split; [exact (path_text_is_path u W)|].
+  split; [exact (path_segments_session_exact_file dbg u ops u' W Hsl Hf HP Hok Hu H) | exact (session_text_ok ops (path_bytes u) HP)].
+Qed.
+Check C06_frame_segments_exact_file : forall dbg u ops u', wf_b u = true ->
+  byte_eqb (ser u) (scheme_end u + 1) 47 = true -> st_of u = STFile ->
+  file_path_ok (path_bytes u) = true -> file_session_ok (path_bytes u) ops = true ->
+  Forall psm_op_usv ops -> path_segments_session dbg u ops = Some (u', SOk) ->
+  path u = Some (path_bytes u) /\ u' = with_path u (session_text STFile (path_bytes u) ops)
+  /\ file_path_ok (session_text STFile (path_bytes u) ops) = true.
+Print Assumptions C06_frame_segments_exact_file.
+
+(* the premises are met: file:///tmp/a (a parse result) with push("b"), push("C|"), pop - the drive-letter-like segment
+   is appended verbatim behind "/tmp/a/b" and removed by pop *)
+Example C06_frame_segments_exact_file_inhabited :
+  wf_b ft_url = true /\ byte_eqb (ser ft_url) (scheme_end ft_url + 1) 47 = true /\ st_of ft_url = STFile
+  /\ path_bytes ft_url = B "/tmp/a" /\ file_path_ok (path_bytes ft_url) = true
+  /\ file_session_ok (path_bytes ft_url) ft_ops = true /\ Forall psm_op_usv ft_ops
+  /\ path_segments_session true ft_url ft_ops = Some (with_path ft_url (B "/tmp/a/b"), SOk)
+  /\ session_text STFile (path_bytes ft_url) ft_ops = B "/tmp/a/b"
+  /\ session_text STFile (path_bytes ft_url) [PPush (B "b"); PPush (B "C|")] = B "/tmp/a/b/C|"
+  /\ path_segments_session true ft_url [PPush (B "b"); PPush (B "C|")] = Some (with_path ft_url (B "/tmp/a/b/C|"), SOk)
+  /\ ser (with_path ft_url (B "/tmp/a/b/C|")) = B "file:///tmp/a/b/C|".
+Proof. exact file_session_example. Qed.
+
+Example C06_file_example_records :
+  ft_ops = [PPush (B "b"); PPush (B "C|"); PPop]
+  /\ fr_ops = [PExtend [B "etc"; []; B "C|"]; PClear; PPush [67; 9; 58]; PPush [99; 9; 37]]
+  /\ parse_url true (host_parse idna_clean) host_parse_opaque host_display None None (B "file:///tmp/a") = POk ft_url
+  /\ parse_url true (host_parse idna_clean) host_parse_opaque host_display None None (B "file:///") = POk fr_url.
+Proof. split; [reflexivity|]. split; [reflexivity|]. exact file_urls_parsed. Qed.
+
+(* the root path: extend(["etc", "", "C|"]), clear, push("C<TAB>:"), push("c<TAB>%") on file:/// *)
+Example C06_frame_segments_exact_file_root_inhabited :
+  wf_b fr_url = true /\ byte_eqb (ser fr_url) (scheme_end fr_url + 1) 47 = true /\ st_of fr_url = STFile
+  /\ path_bytes fr_url = B "/" /\ file_path_ok (path_bytes fr_url) = true
+  /\ file_session_ok (path_bytes fr_url) fr_ops = true /\ Forall psm_op_usv fr_ops
+  /\ path_segments_session true fr_url fr_ops = Some (with_path fr_url (B "/C:/c%25"), SOk)
+  /\ session_text STFile (path_bytes fr_url) fr_ops = B "/C:/c%25"
+  /\ session_text STFile (path_bytes fr_url) [PExtend [B "etc"; []; B "C|"]] = B "/etc//C|"
+  /\ root_seg_ok (B "etc") = true /\ root_seg_ok [] = true /\ root_seg_ok (B "C:") = true /\ root_seg_ok (B "c:x") = true
+  /\ root_seg_ok [67; 9; 58] = true /\ root_seg_ok [67; 58; 9] = true /\ root_seg_ok (B "c|x") = true
+  /\ root_seg_ok (B "C|") = false /\ root_seg_ok [67; 9; 124] = false /\ root_seg_ok [67; 58; 9; 120] = false
+  /\ path_segments_session true fr_url [PPush (B "c:x")] = Some (with_path fr_url (B "/c:x"), SOk)
+  /\ path_segments_session true fr_url [PPush [67; 58; 9]] = Some (with_path fr_url (B "/C:"), SOk).
+Proof. exact file_root_session_example. Qed.
+
+(* the side conditions spelled out (pin of the definitions) *)
+Theorem C06_file_session_ok_unfold : forall P o ops a c r seg s segs acc pend,
+  file_path_ok [] = false /\ file_path_ok [a] = (a =? 47) /\ file_path_ok (a :: c :: r) = ((a =? 47) && negb (c =? 47))
+  /\ file_session_ok P [] = true
+  /\ file_session_ok P (o :: ops) = (op_ok P o && file_session_ok (op_text STFile P o) ops)
+  /\ op_ok P PClear = true /\ op_ok P PPop = true /\ op_ok P PPopIfEmpty = true
+  /\ op_ok P (PPush seg) = push_ok P seg /\ op_ok P (PExtend []) = true
+  /\ op_ok P (PExtend (s :: segs)) = (push_ok P s && op_ok (push_text STFile P s) (PExtend segs))
+  /\ push_ok P seg = (psm_skips seg || fpi_b P || root_seg_ok seg)
+  /\ fpi_b (a :: c :: r) = ((a =? 47) && negb (c =? 47)) /\ fpi_b [a] = false /\ fpi_b [] = false
+  /\ root_seg_ok seg = (flush_ok [] [] seg
+                        && negb (match encode (path_set CPathSegmentSetter STFile) (utf8_encode (filter not_tnl seg)) with
+                                 | [x; y] => is_alpha x && (y =? 124) | _ => false end))
+  /\ flush_ok acc pend [] = true
+  /\ flush_ok acc pend (a :: r)
+     = (if is_tnl a then flush_ok (acc ++ rev pend) [] r
+        else negb (is_normalized_wdl (encode (path_set CPathSegmentSetter STFile) (utf8_encode acc))) && flush_ok acc (a :: pend) r).
+Proof. intros. repeat split; reflexivity. Qed.
+Check C06_file_session_ok_unfold : forall P o ops a c r seg s segs acc pend,
+  file_path_ok [] = false /\ file_path_ok [a] = (a =? 47) /\ file_path_ok (a :: c :: r) = ((a =? 47) && negb (c =? 47))
+  /\ file_session_ok P [] = true
+  /\ file_session_ok P (o :: ops) = (op_ok P o && file_session_ok (op_text STFile P o) ops)
+  /\ op_ok P PClear = true /\ op_ok P PPop = true /\ op_ok P PPopIfEmpty = true
+  /\ op_ok P (PPush seg) = push_ok P seg /\ op_ok P (PExtend []) = true
+  /\ op_ok P (PExtend (s :: segs)) = (push_ok P s && op_ok (push_text STFile P s) (PExtend segs))
+  /\ push_ok P seg = (psm_skips seg || fpi_b P || root_seg_ok seg)
+  /\ fpi_b (a :: c :: r) = ((a =? 47) && negb (c =? 47)) /\ fpi_b [a] = false /\ fpi_b [] = false
+  /\ root_seg_ok seg = (flush_ok [] [] seg
+                        && negb (match encode (path_set CPathSegmentSetter STFile) (utf8_encode (filter not_tnl seg)) with
+                                 | [x; y] => is_alpha x && (y =? 124) | _ => false end))
+  /\ flush_ok acc pend [] = true
+  /\ flush_ok acc pend (a :: r)
+     = (if is_tnl a then flush_ok (acc ++ rev pend) [] r
+        else negb (is_normalized_wdl (encode (path_set CPathSegmentSetter STFile) (utf8_encode acc))) && flush_ok acc (a :: pend) r).
+Print Assumptions C06_file_session_ok_unfold.
+
+(* sessions of push / extend only, on a path longer than "/" (fpi_b), meet the side condition - every &str argument *)
+Theorem C06_file_push_only_ok : forall P ops, fpi_b P = true -> forallb push_only ops = true ->
+  file_path_ok P = true /\ file_session_ok P ops = true.
+Proof. intros P ops H Ho. split; [exact (fpi_file_path_ok P H) | exact (push_only_session_ok ops P H Ho)]. Qed.
+Check C06_file_push_only_ok : forall P ops, fpi_b P = true -> forallb push_only ops = true ->
+  file_path_ok P = true /\ file_session_ok P ops = true.
+Print Assumptions C06_file_push_only_ok.
+
+Example C06_file_push_only_ok_inhabited :
+  fpi_b (B "/tmp/a") = true /\ forallb push_only [PPush (B "C|"); PExtend [B "c:"; [67; 58; 9; 120]]] = true
+  /\ push_only PPop = false /\ push_only PClear = false /\ push_only PPopIfEmpty = false.
+Proof. repeat split; vm_compute; reflexivity. Qed.
+
+(* the side condition on pushes at the root path is needed *)
+Theorem C06_frame_segments_file_root_refuted :
+  wf_b fr_url = true /\ st_of fr_url = STFile /\ file_path_ok (path_bytes fr_url) = true
+  /\ file_session_ok (path_bytes fr_url) [PPush (B "C|")] = false
+  /\ path_segments_session true fr_url [PPush (B "C|")] = Some (with_path fr_url (B "/C:"), SOk)
+  /\ session_text STFile (path_bytes fr_url) [PPush (B "C|")] = B "/C|"
+  /\ file_session_ok (path_bytes fr_url) [PPush [67; 58; 9; 120]] = false
+  /\ path_segments_session true fr_url [PPush [67; 58; 9; 120]] = Some (with_path fr_url (B "/C:/x"), SOk)
+  /\ session_text STFile (path_bytes fr_url) [PPush [67; 58; 9; 120]] = B "/C:x"
+  /\ (exists ops u', Forall psm_op_usv ops /\ path_segments_session true fr_url ops = Some (u', SOk)
+        /\ u' <> with_path fr_url (session_text STFile (path_bytes fr_url) ops)).
+Proof. exact file_root_refuted. Qed.
+Check C06_frame_segments_file_root_refuted :
+  wf_b fr_url = true /\ st_of fr_url = STFile /\ file_path_ok (path_bytes fr_url) = true
+  /\ file_session_ok (path_bytes fr_url) [PPush (B "C|")] = false
+  /\ path_segments_session true fr_url [PPush (B "C|")] = Some (with_path fr_url (B "/C:"), SOk)
+  /\ session_text STFile (path_bytes fr_url) [PPush (B "C|")] = B "/C|"
+  /\ file_session_ok (path_bytes fr_url) [PPush [67; 58; 9; 120]] = false
+  /\ path_segments_session true fr_url [PPush [67; 58; 9; 120]] = Some (with_path fr_url (B "/C:/x"), SOk)
+  /\ session_text STFile (path_bytes fr_url) [PPush [67; 58; 9; 120]] = B "/C:x"
+  /\ (exists ops u', Forall psm_op_usv ops /\ path_segments_session true fr_url ops = Some (u', SOk)
+        /\ u' <> with_path fr_url (session_text STFile (path_bytes fr_url) ops)).
+Print Assumptions C06_frame_segments_file_root_refuted.
+
+(* 32. The premises of section 31 hold of every canonical file record of C02 (FileCanon: every parse result of a file URL
+   without base outside Known_file_drive - C02_parse_file_Canon5 -, closed under set_query / set_fragment, the results of
+   from_file_path): well-formed, '/' behind the scheme, scheme type file, path text "/" or '/' followed by a byte other
+   than '/' (Proofs/C06_SegFileCanon.v).  So on such a record only the side condition on the session remains. *)
+From RU Require Import Proofs.C02_FileCanon Proofs.C06_SegFileCanon.
+
+Theorem C06_frame_segments_FileCanon : forall dbg hp hpo hd u ops u', HostRT hp hpo hd -> FileCanon hp hd u ->
+  file_session_ok (path_bytes u) ops = true -> Forall psm_op_usv ops ->
+  path_segments_session dbg u ops = Some (u', SOk) ->
+  (wf_b u = true /\ byte_eqb (ser u) (scheme_end u + 1) 47 = true /\ st_of u = STFile /\ file_path_ok (path_bytes u) = true)
+  /\ path u = Some (path_bytes u) /\ u' = with_path u (session_text STFile (path_bytes u) ops)
+  /\ file_path_ok (session_text STFile (path_bytes u) ops) = true.
+Proof.
+  intros dbg hp hpo hd u ops u' HRT K Hok Hu H. split; [exact (FileCanon_session_premises dbg hp hpo hd HRT u K)|].
+  exact (psm_session_FileCanon dbg hp hpo hd HRT u ops u' K Hok Hu H).
+Qed.
+Check C06_frame_segments_FileCanon : forall dbg hp hpo hd u ops u', HostRT hp hpo hd -> FileCanon hp hd u ->
+  file_session_ok (path_bytes u) ops = true -> Forall psm_op_usv ops ->
+  path_segments_session dbg u ops = Some (u', SOk) ->
+  (wf_b u = true /\ byte_eqb (ser u) (scheme_end u + 1) 47 = true /\ st_of u = STFile /\ file_path_ok (path_bytes u) = true)
+  /\ path u = Some (path_bytes u) /\ u' = with_path u (session_text STFile (path_bytes u) ops)
+  /\ file_path_ok (session_text STFile (path_bytes u) ops) = true.
+Print Assumptions C06_frame_segments_FileCanon.
+
+(* file://h.example/a/b%20c?q#f with pop, pop, pop (down to "/"), push("d e"), push("C|") gives file://h.example/d%20e/C|?q#f *)
+Example C06_frame_segments_FileCanon_inhabited :
+  HostRT ex_hp ex_hp ex_hd /\ FileCanon ex_hp ex_hd fc_url /\ ser fc_url = B "file://h.example/a/b%20c?q#f"
+  /\ file_session_ok (path_bytes fc_url) fc_ops = true /\ Forall psm_op_usv fc_ops
+  /\ session_text STFile (path_bytes fc_url) fc_ops = B "/d%20e/C|"
+  /\ session_text STFile (path_bytes fc_url) [PPop; PPop; PPop] = B "/"
+  /\ path_segments_session true fc_url fc_ops = Some (with_path fc_url (B "/d%20e/C|"), SOk)
+  /\ ser (with_path fc_url (B "/d%20e/C|")) = B "file://h.example/d%20e/C|?q#f".
+Proof. exact file_canon_session_example. Qed.
